@@ -171,7 +171,8 @@ class StreamSpec:
 
     # the endpoint's own terminal emissions, and the endings after which BOTH directions are complete as far as this
     # endpoint has seen (its own direction ended with the request, the peer's with the response / COMPLETE it received)
-    OWN_ENDINGS = ('error-out', 'cancel-out', 'both-complete', 'response-sent', 'completed-out', 'response', 'completed')
+    OWN_ENDINGS = ('error-out', 'cancel-out', 'both-complete', 'response-sent', 'completed-out', 'response', 'completed',
+                   'error-response')
 
     def out(self, fr):
         """a frame this endpoint emits on the stream; returns a reason if it is illegal.  What the peer's terminal frame
@@ -217,7 +218,9 @@ class StreamSpec:
         k, me = self.kind, self.iam
         if t == 'Error':
             self.other_open = self.out_open
-            self.dead, self.why = True, 'error-in'
+            # for the requester of a request-response or stream an ERROR is the response / the end of the stream: its own
+            # direction ended with the request, so both directions are complete (a channel's own direction may still be open)
+            self.dead, self.why = True, ('error-response' if me == 'req' and k in ('rr', 'rs') else 'error-in')
         elif t == 'Cancel':
             if me == 'resp':
                 self.other_open = self.in_open
